@@ -5,6 +5,7 @@ Property theorems only (statements are fixed; helper lemmas live in `Lemmas/Attr
 import StunVerif.Spec.Attr
 import StunVerif.Lemmas.Attr
 import StunVerif.Gen.Attr
+import StunVerif.Gen.Limits
 namespace StunVerif.C08
 open StunVerif
 
@@ -67,6 +68,45 @@ theorem reencode_exact (k : Kind) (raw : RawAttr) (v : AttrVal) (h : fromRaw k r
 theorem src_type_codes :
     Gen.typeCodes = Kind.all.map Spec.code ∧ Kind.all.map Kind.code = Kind.all.map Spec.code := by
   decide
+
+
+/-- the value-length range each decoder checks first, as the RFC table implies it -/
+def lenRange : Kind → Option Nat × Option Nat
+  | .username => (none, some 513)
+  | .messageIntegrity => (some 20, some 20)
+  | .errorCode => (some 4, some 767)
+  | .unknownAttributes => (none, none)
+  | .realm | .nonce | .software => (none, some 763)
+  | .messageIntegritySha256 => (some 16, some 32)
+  | .passwordAlgorithm | .passwordAlgorithms => (some 4, none)
+  | .userhash => (some 32, some 32)
+  | .xorMappedAddress | .alternateServer | .alternateDomain => (none, none)
+  | .priority | .fingerprint => (some 4, some 4)
+  | .useCandidate => (some 0, some 0)
+  | .iceControlled | .iceControlling => (some 8, some 8)
+
+def inRange (r : Option Nat × Option Nat) (n : Nat) : Prop :=
+  (∀ lo, r.1 = some lo → lo ≤ n) ∧ (∀ hi, r.2 = some hi → n ≤ hi)
+
+/-- tie to the source: the length range handed to `check_type_and_len` by each of the 19 decoders,
+    as read from /repo on this run, is the range of the RFC table; likewise the limits the text
+    constructors enforce -/
+theorem src_decode_ranges :
+    Gen.decodeRanges = Kind.all.map lenRange ∧ Gen.textNewLimits = [513, 763, 763, 763] := by
+  decide
+
+/-- the table's ranges are implied by the RFC accept sets (so the range check refuses nothing the
+    RFCs allow) -/
+theorem accept_in_range (k : Kind) (v : Bytes) (h : Spec.accept k v = true) : inRange (lenRange k) v.length := by
+  unfold inRange
+  cases k <;> simp only [Spec.accept, Spec.addrOk, Spec.algoEntryOk, Bool.and_eq_true, Bool.or_eq_true,
+    decide_eq_true_eq, beq_iff_eq] at h <;> simp only [lenRange] <;>
+    refine ⟨fun lo hlo => ?_, fun hi hhi => ?_⟩ <;>
+    first
+      | (simp at hlo; done)
+      | (simp at hhi; done)
+      | (simp at hlo; omega)
+      | (simp at hhi; omega)
 
 /-! Non-vacuity: concrete accepted encodings. -/
 example : fromRaw .errorCode ⟨9, [0, 0, 4, 20, 0x6f, 0x6b]⟩ = .ok (.errorCode 420 [0x6f, 0x6b]) := by
